@@ -6,7 +6,7 @@ Statements over `Varpulis.EventFile` (Model/EventFile.lean): `preloadRead` mirro
 `EventFileParser::parse`, `streamRead` mirrors `StreamingEventReader` + `parse_line` as the CLI
 drives it. The payload parser shared by both readers is an arbitrary function
 `parseEvent : String → Option Ev`; the theorems hold for every such function.
-`Outcome.ok evs` = the events, `.reject` = `Err(_)`, `.panic` = arithmetic overflow in a timing prefix.
+`Outcome.ok evs` = the events, `.reject` = `Err(_)`.
 
 Full strength would be `∀ lines, streamRead pe lines = (preloadRead pe lines).map (·.map Prod.fst)`.
 That is false of the code (known finding `C46-oversized-line`): the streaming reader skips lines
@@ -18,7 +18,7 @@ open Varpulis.EventFile
 
 /-- Every file whose raw lines are at most `MAX_LINE_LENGTH` (1 MiB) bytes long: the streaming reader
 yields exactly the events of the preloading reader (same order, time offsets dropped), or both
-reject, or both hit the same overflow panic. All line forms: plain, `BATCH n`, `@…` prefixes, JSONL,
+reject. All line forms: plain, `BATCH n`, `@…` prefixes, JSONL,
 comments, blank lines. -/
 theorem readers_agree_partial {Ev : Type} (parseEvent : String → Option Ev) (lines : List RawLine)
     (hlen : ∀ l ∈ lines, l.rawLen ≤ maxLineLength) :
@@ -58,8 +58,8 @@ theorem readers_agree_counterexample :
     preloadRead pe lines = .ok [("A { x: 1 }", 0)] ∧ streamRead pe lines = .ok [] := by
   decide
 
-/-- Defect repaired by the first `fix:` commit: the unchanged `parse_line` skipped every
-`@`-prefixed line, so a three-event file gave three events preloaded and one streamed. -/
+/-- Defect repaired by the first `fix:` commit: `parse_line`, which the streaming reader used,
+skips every `@`-prefixed line, so a three-event file gave three events preloaded and one streamed. -/
 theorem old_streaming_skipped_timed_lines :
     let pe : String → Option String := some
     let lines : List RawLine := [⟨"@0s A { x: 1 }", 15⟩, ⟨"@1s B { x: 2 }", 15⟩, ⟨"C { x: 3 }", 11⟩]
@@ -91,13 +91,14 @@ example :
       "{\"event_type\": \"E\", \"data\": {}}"] := by
   decide
 
-/-- non-vacuity of the reject and panic branches: both readers reject a bad timing prefix, both
-panic on `secs * 1000` overflowing u64 -/
+/-- non-vacuity of the reject branch: both readers reject a bad timing prefix, a time that does not
+fit into u64 milliseconds, and an event the payload parser rejects (here: any text containing `!`) -/
 example :
-    let pe : String → Option String := some
+    let pe : String → Option String := fun s => if s.toList.contains '!' then none else some s
     preloadRead pe [⟨"@soon A { }", 12⟩] = .reject ∧ streamRead pe [⟨"@soon A { }", 12⟩] = .reject ∧
-    preloadRead pe [⟨"@18446744073709551615s A { }", 30⟩] = .panic ∧
-    streamRead pe [⟨"@18446744073709551615s A { }", 30⟩] = .panic := by
+    preloadRead pe [⟨"@18446744073709551615s A { }", 30⟩] = .reject ∧
+    streamRead pe [⟨"@18446744073709551615s A { }", 30⟩] = .reject ∧
+    preloadRead pe [⟨"A { }", 6⟩, ⟨"@1s oops!", 10⟩] = .reject ∧ streamRead pe [⟨"A { }", 6⟩, ⟨"@1s oops!", 10⟩] = .reject := by
   decide
 
 end Varpulis.Props.C46
